@@ -31,6 +31,8 @@ def render(case, e):
   if k == 'sig': return signame(case, e[1])
   if k == 'num':
     v, style = e[1], e[2]
+    if style.startswith('attr:'): return f's.P{style[5:]}'
+    if style.startswith('cfg:'): return f's.cfg.n{style[4:]}'
     if style == 'glob': return f'KI_{v}'
     if style == 'loc': return f'LI_{v}'
     if style == 'globb': return f'KB_{v}'
@@ -43,6 +45,9 @@ def render(case, e):
   if k == 'cmp': return '(' + render(case, e[2]) + ' ' + CMPOP[e[1]] + ' ' + render(case, e[3]) + ')'
   if k == 'ite': return '(' + render(case, e[2]) + ' if ' + render(case, e[1]) + ' else ' + render(case, e[3]) + ')'
   if k == 'cast':
+    if e[3].startswith('attr:'): return f's.P{e[3][5:]}'
+    if e[3].startswith('cfg:'): return f's.cfg.n{e[3][4:]}'
+    if e[3].startswith('tab:'): return f's.T{e[3][4:]}[ 1 ]'
     if e[3] == 'const': return f's.KB{e[1]}_{e[2][1]}'
     if e[3] == 'globfv': return f'KG{e[1]}_{e[2][1]}'
     if e[3] == 'locfv': return f'LB{e[1]}_{e[2][1]}'
@@ -116,6 +121,28 @@ def tmp_defs(stmts, out=None):
     elif st[0] == 'for': tmp_defs(st[5], out)
   return out
 
+def param_attrs(case):
+  """per-instance constants read through attributes of the component: {slot: (kind, source of the value)}"""
+  out = {}
+  def see(e):
+    if e[0] == 'num' and ':' in e[2]:
+      kind, j = e[2].split(':'); out[int(j)] = (kind, str(e[1]))
+    if e[0] == 'cast' and ':' in e[3]:
+      kind, j = e[3].split(':'); out[int(j)] = (kind, f'Bits{e[1]}( {e[2][1]} )')
+  for ex, _ in top_exprs(case['block']): walk_exprs(ex, see)
+  return out
+
+def param_lines(pa, value_of):
+  """construct() lines that bind the constants; value_of(j, src) = the text to assign"""
+  lines = []
+  if any(k == 'cfg' for k, _ in pa.values()): lines.append('s.cfg = Cfg()')
+  for j, (kind, src) in sorted(pa.items()):
+    v = value_of(j, src)
+    if kind == 'attr': lines.append(f's.P{j} = {v}')
+    elif kind == 'cfg': lines.append(f's.cfg.n{j} = {v}')
+    elif kind == 'tab': lines.append(f's.T{j} = [ {v}, {v} ]')
+  return lines
+
 def free_vars(case):
   """bare-name constants of the block: module level [(name, source)], construct() locals [(name, source)]"""
   glob, loc = {}, {}
@@ -147,6 +174,7 @@ def class_source(case):
     lines.append(f'    s.{"i" if d == "in" else "o"}{x} = {"InPort" if d == "in" else "OutPort"}( Bits{w} )')
   for n, v in sorted(cons_b): lines.append(f'    s.KB{n}_{v} = Bits{n}( {v} )')
   for nm, src in free_vars(case)[1]: lines.append(f'    {nm} = {src}')
+  for l in param_lines(param_attrs(case), lambda j, src: src): lines.append('    ' + l)
   lines.append('    @update')
   lines.append('    def up():')
   body = render_stmts(case, case['block'], 3)
@@ -160,7 +188,7 @@ def module_source(cases):
     name, lines, ci, cb, ws = class_source(c)
     names.append(name); body += lines + ['']
     cons_i |= ci; cons_b |= cb; widths |= ws
-  head = ['from pymtl3 import *', 'from pymtl3.datatypes import mk_bits', '']
+  head = ['from pymtl3 import *', 'from pymtl3.datatypes import mk_bits', '', 'class Cfg: pass', '']
   for w in sorted(widths): head.append(f'Bits{w} = mk_bits( {w} )')
   for v in sorted(cons_i): head.append(f'KI_{v} = {v}')
   gl = {}
@@ -761,6 +789,87 @@ def gen_fvar(rng, uid):
     o2 = g.new_out(w - lo)
     st = ['asg', ['sig', o2[0], w - lo], ['slc', x[0], w, K2, num(rng, w)]]
   return {'uid': uid, 'stream': 'fvar', 'sigs': g.sigs, 'block': [st]}
+
+# ---- several instances of one class with different per-instance constants
+
+def gen_multi(rng, uid):
+  """a block reading constants through `s.P<j>` / `s.cfg.n<j>` / `s.T<j>[1]`; 'insts' gives 2-3 bindings of the slots
+  (ints that fit / do not fit, BitsN of the context width / another width)"""
+  g = Gen(rng, uid, 'multi', 0.0)
+  w = rng.choice([2, 4, 8])
+  x = g.new_in(w); c = g.new_in(1); o = g.new_out(w); o1 = g.new_out(1)
+  X, C, O, O1 = ['sig', x[0], w], ['sig', c[0], 1], ['sig', o[0], w], ['sig', o1[0], 1]
+  top = (1 << w) - 1
+  nslots = rng.randint(1, 2)
+  slots, leaves = [], []
+  for j in range(nslots):
+    if rng.random() < 0.5:
+      kind = rng.choice(['attr', 'cfg']); slots.append('i'); leaves.append(['num', 1, f'{kind}:{j}'])
+    else:
+      kind = rng.choice(['attr', 'cfg', 'tab']); slots.append('b'); leaves.append(['cast', w, ['num', 1, 'lit'], f'{kind}:{j}'])
+  def val(kind):
+    if kind == 'i': return rng.choice([rng.randint(0, top), top, top + 1 + rng.randint(0, 300), 0])
+    n = rng.choice([w, w, max(1, w - 1), w + 4, 1]); return [n, rng.randint(0, (1 << n) - 1)]
+  insts = []
+  for _ in range(rng.randint(2, 3)): insts.append([val(k) for k in slots])
+  if insts[0] == insts[1]: insts[1] = [val(k) for k in slots]
+  P0 = leaves[0]; P1 = leaves[-1]
+  k = rng.random()
+  if k < 0.3: block = [['asg', O, ['bin', rng.choice(MAXOPS), ['bin', rng.choice(['band', 'add', 'bxor']), X, P0], P1]]]
+  elif k < 0.45: block = [['asg', O1, ['cmp', rng.choice(list(CMPOP)), X, P0]]]
+  elif k < 0.6: block = [['asg', O, ['ite', C, X, P0]]]
+  elif k < 0.7: block = [['asg', O, P0]]
+  elif k < 0.82: block = [['tasg', 0, P0], ['asg', O, ['bin', 'add', X, ['tmp', 0]]]]
+  elif k < 0.9: block = [['asg', O, ['bin', rng.choice(SHIFTS), X, P0]]]
+  else: block = [['ifs', ['cmp', 'eq', X, P0], [['asg', O, P1 if slots[-1] == 'b' else X]], [['asg', O, X]]]]
+  return {'uid': uid, 'stream': 'multi', 'sigs': g.sigs, 'block': block, 'slots': slots, 'insts': insts}
+
+def instantiate(case, k):
+  """the ordinary case of instance k: the slot leaves carry that instance's values"""
+  import copy
+  b = case['insts'][k]
+  def sub(e):
+    if isinstance(e, list):
+      if e and e[0] == 'num' and isinstance(e[2], str) and ':' in e[2]:
+        return ['num', b[int(e[2].split(':')[1])], e[2]]
+      if e and e[0] == 'cast' and isinstance(e[3], str) and ':' in e[3]:
+        n, v = b[int(e[3].split(':')[1])]; return ['cast', n, ['num', v, 'lit'], e[3]]
+      return [sub(x) for x in e]
+    return e
+  return {'uid': case['uid'] * 10 + k, 'stream': 'multi', 'sigs': copy.deepcopy(case['sigs']), 'block': sub(case['block'])}
+
+def multi_source(case):
+  """one parameterised class, one Top with all instances; returns (source, class name, top name, [arg source lists])"""
+  pa = param_attrs(instantiate(case, 0))
+  name, top = f'C10M_{case["uid"]}', f'C10T_{case["uid"]}'
+  ns = len(case['slots'])
+  lines = ['from pymtl3 import *', 'from pymtl3.datatypes import mk_bits', '', 'class Cfg: pass', '']
+  ws = {w for x, w, d in case['sigs']}
+  for b in case['insts']:
+    for v in b:
+      if isinstance(v, list): ws.add(v[0])
+  lines += [f'Bits{w} = mk_bits( {w} )' for w in sorted(ws)] + ['']
+  lines += [f'class {name}( Component ):', '  def construct( s, ' + ', '.join(f'p{j}' for j in range(ns)) + ' ):']
+  for x, w, d in case['sigs']:
+    lines.append(f'    s.{"i" if d == "in" else "o"}{x} = {"InPort" if d == "in" else "OutPort"}( Bits{w} )')
+  lines += ['    ' + l for l in param_lines(pa, lambda j, src: f'p{j}')]
+  lines += ['    @update', '    def up():'] + render_stmts(instantiate(case, 0), case['block'], 3)
+  args = [[(f'Bits{v[0]}( {v[1]} )' if isinstance(v, list) else str(v)) for v in b] for b in case['insts']]
+  lines += ['', f'class {top}( Component ):', '  def construct( s ):']
+  for k, a in enumerate(args): lines.append(f'    s.c{k} = {name}( ' + ', '.join(a) + ' )')
+  return '\n'.join(lines) + '\n', name, top, args
+
+def load_source(workdir, src):
+  _modcount[0] += 1
+  modname = f'c10gen_{os.getpid()}_{_modcount[0]}'
+  path = os.path.join(workdir, modname + '.py')
+  with open(path, 'w') as f: f.write(src)
+  spec = importlib.util.spec_from_file_location(modname, path)
+  mod = importlib.util.module_from_spec(spec)
+  sys.modules[modname] = mod
+  _loaded.append(modname)
+  spec.loader.exec_module(mod)
+  return mod
 
 # ---- labelled streams: one per known soundness hole of the checker (each is a parameterised witness)
 
